@@ -106,7 +106,7 @@ def resolve (kw cfg : Opts Tri) (d : Opts Bool) : Opts Bool :=
 /-- an assertion placed in the Advice element -/
 structure Adv where
   signed : Bool := false
-  schemaValid : Bool := true     -- PEFIM's advice assertion is built without Issuer: schema-invalid
+  schemaValid : Bool := true     -- since 8a6bffac PEFIM's advice assertion carries its Issuer: always true for issued advice
 deriving Repr, DecidableEq, Inhabited
 
 /-- The call `create_authn_response(…)` as far as signing / encryption go. -/
@@ -157,6 +157,8 @@ deriving Repr, DecidableEq, Inhabited
 inductive Refusal where
   | noUsableCert      -- every certificate tried raised
   | parseObject       -- `response_from_string` applied to an object
+  | ecpNeedsObject    -- create_ecp_authn_request_response wraps the Response with `element_to_extension_element`,
+                      -- which raises AttributeError on text
 deriving Repr, DecidableEq, Inhabited
 
 /-- which way `_response` went (for the coverage histogram; no theorem looks at it) -/
@@ -175,6 +177,8 @@ deriving Repr, DecidableEq, Inhabited
 structure Issued where
   ops : List Op
   wire : Wire
+  /-- the call returns text (something was signed, encrypted or rendered self-contained), not a Response object -/
+  asString : Bool := false
   trace : Trace := {}
 deriving Repr, DecidableEq, Inhabited
 
@@ -261,9 +265,10 @@ def partB (a : RArgs) : Except Refusal (List Op × Option AdvBox) :=
         else .ok (optOp (signsAdvice a) .signAdvice ++ keyOp .encAdvice ko, some (sealAdv ko (advAfterB a adv)))
 
 /-- Part D: the Response signature is computed last, over the body as it then is. -/
-def finish (sign : Bool) (ops : List Op) (body : Body) (t : Trace) : Issued :=
+def finish (sign : Bool) (ops : List Op) (body : Body) (t : Trace) (str : Bool) : Issued :=
   { ops := ops ++ optOp sign .signResponse
     wire := { sig := if sign then some body else none, body := body }
+    asString := str || sign
     trace := t }
 
 /-- Part C: signature template on the assertion, `pre_encrypt_assertion`, sign, encrypt. -/
@@ -273,14 +278,14 @@ def partC (a : RArgs) (opsB : List Op) (advB : Option AdvBox) (t : Trace) : Exce
   | .error e => .error e
   | .ok ko =>
     .ok (finish a.sign (opsB ++ optOp a.signAssertion .signAssertion ++ keyOp .encAssertion ko) (sealBody ko outer)
-          { t with partC := true })
+          { t with partC := true } (a.selfContained || a.signAssertion || ko.isSome))
 
 def response (a : RArgs) : Except Refusal Issued :=
   let adv0 : Option AdvBox := a.advice.map .clear
   if earlyReturn a then
     -- only the extra parts are signed: return at once
     .ok { ops := [.signAssertion], wire := { sig := none, body := .clear { sig := some adv0, advice := adv0 } },
-          trace := { branch := .early } }
+          asString := true, trace := { branch := .early } }
   else
     let t : Trace := { branch := .encrypting, downgradedAssertion := a.encryptAssertion && !assertionKept a,
                        downgradedAdvice := a.encryptedAdvice && !adviceKept a }
@@ -293,20 +298,21 @@ def response (a : RArgs) : Except Refusal Issued :=
         else
           -- `if to_sign: signed_instance_factory(response, …, to_sign)`
           let outer : Outer := { sig := if a.toSign then some advB else none, advice := advB }
-          .ok (finish a.sign (opsB ++ optOp a.toSign .signAssertion) (.clear outer) t)
+          -- part B ended with `response_from_string`: an object again unless `to_sign` is signed now
+          .ok (finish a.sign (opsB ++ optOp a.toSign .signAssertion) (.clear outer) t a.toSign)
     else
       -- nothing to encrypt: `self.sign(response, to_sign=to_sign)` or the bare message
       let signed := a.sign && a.toSign
       let outer : Outer := { sig := if signed then some adv0 else none, advice := adv0 }
-      .ok (finish a.sign (optOp signed .signAssertion) (.clear outer) { t with branch := .plain })
+      .ok (finish a.sign (optOp signed .signAssertion) (.clear outer) { t with branch := .plain } false)
 
 /-! ### Server._authn_response / create_authn_response -/
 
 def Call.opts (c : Call) : Opts Bool := resolve c.kw c.cfg c.dflt
 
-/-- the advice assertion `_response` finds: PEFIM's own (attributes, no Issuer) or the one handed in -/
+/-- the advice assertion `_response` finds: PEFIM's own (attributes; with Issuer since 8a6bffac) or the one handed in -/
 def Call.advice (c : Call) : Option Adv :=
-  if c.pefim then some { signed := false, schemaValid := false }
+  if c.pefim then some { signed := false, schemaValid := true }
   else if c.extraAdvice then some { signed := false, schemaValid := true }
   else none
 
@@ -325,6 +331,34 @@ def Call.rargs (c : Call) : RArgs :=
     advice := c.advice }
 
 def createAuthnResponse (c : Call) : Except Refusal Issued := response c.rargs
+
+/-- `Server.create_ecp_authn_request_response`: the Response is put into a SOAP body as an extension element;
+    that works for a Response object only. -/
+def ecpWrap (iss : Issued) : Except Refusal Issued :=
+  if iss.asString then .error .ecpNeedsObject else .ok iss
+
+/-- the three entry points; the two wrappers forward `sign_response` / `sign_assertion` only (always, as
+    positional arguments - `None` when the caller omitted them) and swallow every other keyword argument -/
+inductive Entry where
+  | direct | requestResponse | ecp
+deriving Repr, DecidableEq, Inhabited
+
+/-- the argument as the function body sees it: what the caller passed, else the signature default -/
+def argOf (sigDefault : Tri) (given : Option Tri) : Tri := given.getD sigDefault
+
+/-- keyword arguments reaching `gather_authn_response_args`.  `sig`: signature defaults of
+    `create_authn_response`; `wsr`/`wsa`: signature defaults of the wrapper's `sign_response` / `sign_assertion`;
+    `given`: what the caller wrote (`none` = omitted). -/
+def kwOf (e : Entry) (sig : Opts Tri) (wsr wsa : Tri) (given : Opts (Option Tri)) : Opts Tri :=
+  match e with
+  | .direct =>
+    { signResponse := argOf sig.signResponse given.signResponse, signAssertion := argOf sig.signAssertion given.signAssertion,
+      encryptAssertion := argOf sig.encryptAssertion given.encryptAssertion,
+      encryptedAdvice := argOf sig.encryptedAdvice given.encryptedAdvice,
+      selfContained := argOf sig.selfContained given.selfContained }
+  | _ =>
+    { signResponse := argOf wsr given.signResponse, signAssertion := argOf wsa given.signAssertion,
+      encryptAssertion := sig.encryptAssertion, encryptedAdvice := sig.encryptedAdvice, selfContained := sig.selfContained }
 
 /-! ### what is readable on the wire without any key -/
 
@@ -383,7 +417,8 @@ def Wire.hasCiphertext (w : Wire) : Bool :=
   | .clear o | .wrapped o => match o.advice with | some (.sealed _ _ _) => true | _ => false
 
 /-- Schema validity of what a signature check looks at (`validate_doc_with_schema` runs on the signed
-    element): a wrapper without EncryptedData and PEFIM's Issuer-less advice assertion are invalid. -/
+    element): a wrapper without EncryptedData is invalid; so would be an advice assertion flagged
+    `schemaValid = false` (none is issued since 8a6bffac gave PEFIM's advice assertion its Issuer). -/
 def AdvBox.schemaOk : AdvBox → Bool
   | .clear a => a.schemaValid
   | .wrapped _ => false
